@@ -1,5 +1,215 @@
-from .core_props import run_prop
+"""C01 - domain text is parsed faithfully or rejected, never silently altered.
+
+Worlds judged inside Coq by Corr.Core (model vs implementation, implementation vs the independent reading):
+  * the witnesses of the findings of this property (all repaired: they must pass),
+  * generated domains of the supported fragment, rendered with layout / letter-case / comment noise,
+  * one domain per construct outside the supported fragment (harness/c01_gen.py: every form the property names and
+    the neighbouring ones), where only 'faithful' or 'exception by first use' is accepted,
+  * every domain file the repository ships (raising is acceptable, a vocabulary different from the text is not).
+For C01 the meaning of a parsed body is observed through behaviour: applicability and successor of every parsed action
+on probe states are part of the verdict of the world (units 'app' / 'succ'), next to the vocabulary (unit 'parse')."""
+import json
+import os
+import random
+
+from ..common import (REPO, WORK, Report, cstr, decide, load_findings, run_case_shards, run_impl, standard_proof_part)
+from .. import pddlgen as G
+from .. import c01_gen as C
+from ..core_common import count_groups, flatten_units, run_worlds, world_literal
+
+PROP = "C01"
+HEADER = "From Coq Require Import PrimFloat.\nFrom Verif Require Import Spec.Pddl Corr.Core.\nFrom Verif Require Import Corr.C01.\n"
+CORR = "Corr.C01"
+
+
+def build_world(rng, w, n_states=1, calls_per_action=2, noise=True, name="dom"):
+    objs = G.gen_objects(rng, w)
+    tree = C.domain_tree(w, rng, name)
+    text = G.render(tree, rng, noise)
+    probes = []
+    for _ in range(n_states):
+        st = G.gen_state(rng, w, objs)
+        ptxt = G.problem_text(w, objs, st, domain=name)
+        for a in w.actions:
+            nwhen, nuniv = count_groups(a) if isinstance(a["eff"], list) and a["eff"] and a["eff"][0] == "and" else (0, 0)
+            try:
+                calls = G.calls_for(rng, w, objs, a, limit=calls_per_action)
+            except TypeError:
+                calls = []
+            for args in calls:
+                probes.append({"action": a["name"], "args": args, "state": st, "problem_text": ptxt,
+                               "perm_seed": 0, "nwhen": nwhen, "nuniv": nuniv})
+    return {"domain_text": text, "objects": objs, "oof": w.oof, "oof_kind": w.oof_kind, "probes": probes,
+            "features": sorted(w.features), "tree": tree, "source": "generated",
+            "oof_action": getattr(w, "oof_action", "") if w.oof and w.oof_kind not in VOCAB_KINDS else ""}
+
+
+# planted in the vocabulary, not in one action's body: every probe of the world is affected
+VOCAB_KINDS = {"either-pred", "trailing-untyped-constants", "grouped-function-params"}
+
+
+def cworld_literal(wd, res, eps):
+    lit, u = world_literal(wd, res, eps)
+    return "{| cw := %s; cw_action := %s |}" % (lit, cstr(wd.get("oof_action") or "")), u
+
+
+def clean_replays():
+    d = WORK / PROP / "replays"
+    if d.exists():
+        for f in d.glob("*.json"):
+            f.unlink()
+
+
+def corpus_worlds():
+    out = []
+    for f in load_findings(PROP):
+        w = f.get("witness")
+        if not w or "domain_text" not in w:
+            continue
+        out.append({"domain_text": w["domain_text"], "objects": w.get("objects", []), "oof": w.get("oof", False),
+                    "oof_kind": w.get("oof_kind"), "probes": w.get("probes", []), "features": ["corpus:" + f["id"]],
+                    "witness_of": f["id"] if f.get("status") == "open" else None, "tree": None,
+                    "source": "corpus:" + f["id"]})
+    return out
+
+
+def fixture_worlds():
+    out = []
+    for path in C.shipped_domain_files(str(REPO)):
+        try:
+            text = open(path, "r", encoding="utf-8", errors="replace").read()
+        except OSError:
+            continue
+        text = "".join(ch if ord(ch) < 256 else "?" for ch in text)
+        out.append({"domain_text": text, "objects": [], "oof": True, "oof_kind": None, "probes": [],
+                    "features": ["fixture"], "tree": None, "source": "fixture:" + os.path.relpath(path, str(REPO))})
+    return out
+
+
+def generate(rng, tier):
+    worlds = []
+    n_in = {"quick": 60, "thorough": 400}[tier]
+    per_kind = {"quick": 2, "thorough": 8}[tier]
+    for _ in range(n_in):
+        w = G.gen_world(rng, max_actions=3)
+        worlds.append(build_world(rng, w))
+    planted = {}
+    for kind in C.PLANTERS:
+        done, tries = 0, 0
+        while done < per_kind and tries < 200:
+            tries += 1
+            w = G.gen_world(rng, max_actions=2)
+            if C.plant(rng, w, kind):
+                worlds.append(build_world(rng, w, noise=(done % 2 == 1)))
+                done += 1
+        planted[kind] = done
+    return worlds, planted
 
 
 def run(args):
-    return run_prop("C01", args)
+    rep = Report(PROP, args.tier, args.seed)
+    if not args.replay:
+        clean_replays()
+    standard_proof_part(rep, PROP)
+    rng = random.Random(args.seed * 104729 + 1)
+    planted = {}
+    if args.replay:
+        data = json.load(open(args.replay))
+        worlds = [data["input"]["world"]]
+        for wd in worlds:
+            wd.setdefault("source", "replay")
+    else:
+        gen, planted = generate(rng, args.tier)
+        worlds = corpus_worlds() + gen + fixture_worlds()
+    cfg = run_impl([{"op": "core.numeric_config"}], nproc=1)[0]
+    hashseeds = [0] if args.tier == "quick" else [0, 1]
+    all_cases, all_verdicts, info_total = [], "", {"shards": 0, "shard_errors": [], "cmd": ""}
+    stats = {"worlds": 0, "by_source": {}, "parsed": 0, "parse_raised": 0, "probes": 0, "app_true": 0, "app_false": 0,
+             "app_raised": 0, "succ_returned": 0, "succ_refused_or_raised": 0, "features": {}, "oof_planted": planted,
+             "oof_outcomes": {}, "fixtures": {}, "productions": {}}
+    for hs in hashseeds:
+        results = run_worlds(worlds, hashseed=hs)
+        lits, units = [], []
+        for wd, res in zip(worlds, results):
+            lit, u = cworld_literal(wd, res, cfg["epsilon"])
+            lits.append(lit)
+            units.append(u)
+        verdicts, info = run_case_shards(PROP, CORR, lits, shard_size=6, units=units, header_extra=HEADER,
+                                         max_bytes=100_000)
+        info_total["shards"] += info["shards"]
+        info_total["shard_errors"] += info["shard_errors"]
+        info_total["cmd"] = info["cmd"]
+        flat = flatten_units(worlds, results)
+        for u, ch in zip(flat, verdicts):
+            wd, res = worlds[u["world"]], results[u["world"]]
+            inp = {"world": {k: wd.get(k) for k in ("domain_text", "objects", "oof", "oof_kind", "oof_action", "probes", "features", "source")},
+                   "unit": u, "hashseed": hs,
+                   "implementation": (res.get("probes", [None] * (u.get("probe", 0) + 1))[u["probe"]] if "probe" in u
+                                      else {k: res.get(k) for k in ("vocab", "parse_raised")})}
+            if "probe" in u:
+                inp["probe"] = wd["probes"][u["probe"]]
+                inp["world"] = dict(inp["world"], probes=[wd["probes"][u["probe"]]])
+            nontrivial = (wd["source"] != "generated" or bool(wd["features"]) or wd["oof"]) and \
+                         (u["kind"] == "parse" or len(wd["probes"][u["probe"]]["state"]["facts"]) > 0)
+            all_cases.append({"lit": lits[u["world"]], "input": inp, "nontrivial": nontrivial,
+                              "witness_of": wd.get("witness_of")})
+            all_verdicts += ch
+        if hs == hashseeds[0]:
+            for wd, res in zip(worlds, results):
+                stats["worlds"] += 1
+                src = wd["source"].split(":")[0]
+                stats["by_source"][src] = stats["by_source"].get(src, 0) + 1
+                for f in wd["features"]:
+                    stats["features"][f] = stats["features"].get(f, 0) + 1
+                if wd.get("tree"):
+                    C.census(wd["tree"], stats["productions"])
+                raised = "vocab" not in res
+                if wd["source"].startswith("fixture"):
+                    stats["fixtures"][wd["source"][8:]] = ("raised " + res["parse_raised"]["raised"]) if raised else "parsed"
+                if wd.get("oof_kind"):
+                    o = stats["oof_outcomes"].setdefault(wd["oof_kind"], {"parse-raised": 0, "use-raised": 0, "returned": 0, "not-probed": 0})
+                    if raised:
+                        o["parse-raised"] += 1
+                    else:
+                        prs = [r for pr, r in zip(wd["probes"], res.get("probes", []))
+                               if not wd.get("oof_action") or pr["action"] == wd["oof_action"]]
+                        if not prs:
+                            o["not-probed"] += 1
+                        elif all("value" not in r.get("app", {}) and "value" not in r.get("succ", {}) for r in prs):
+                            o["use-raised"] += 1
+                        else:
+                            o["returned"] += 1
+                if raised:
+                    stats["parse_raised"] += 1
+                    continue
+                stats["parsed"] += 1
+                for pr, r in zip(wd["probes"], res["probes"]):
+                    stats["probes"] += 1
+                    a = r.get("app", {})
+                    if "value" in a:
+                        stats["app_true" if a["value"] else "app_false"] += 1
+                    else:
+                        stats["app_raised"] += 1
+                    stats["succ_returned" if "value" in r.get("succ", {}) else "succ_refused_or_raised"] += 1
+    decide(rep, PROP, CORR, all_cases, all_verdicts, info_total, explain_expr="explain %s", header_extra=HEADER,
+           max_replays=5)
+    cov = rep.coverage
+    stats["named_by_property"] = {name: {k: planted.get(k, 0) for k in kinds} for name, kinds in C.NAMED_BY_PROPERTY.items()}
+    cov["input_distribution"] = stats
+    cov["hash_seeds"] = hashseeds
+    cov["numeric_config"] = cfg
+    cov["exhaustive"] = False
+    cov["rule"] = ("worlds = findings' witnesses + generated typed domains (<=4 types in any declaration order, constants, 2-4 predicates, <=3 "
+                   "functions, 1-3 actions; and/or/not/=/forall/comparison preconditions, add/del/assign/increase/decrease/when/forall-when effects), "
+                   "rendered with layout, letter-case and comment noise + one domain per construct outside the supported fragment (c01_gen.PLANTERS: "
+                   "every form the property names and neighbouring ones; expected: faithful, or an exception at parse or at every first use) + every domain "
+                   "file shipped under /repo/tests (vocabulary / raised compared; behaviour not probed). Each parsed world is probed: 2-3 objects, one random "
+                   "state, two type-correct calls per action; units = vocabulary (parse), applicability (app), successor (succ). productions = census of "
+                   "grammar productions over the generated texts. A unit is non-trivial when its world is not a feature-less generated one and (for probes) "
+                   "the state has facts; distinct by input hash.")
+    cov["samples"] = [c["input"]["world"]["domain_text"][:500] for c in all_cases[:1]] + \
+                     [c["input"]["world"]["domain_text"][:300] for c in all_cases if c["input"]["world"].get("oof_kind")][:2]
+    rep.assumptions = ["ASCII / latin-1 text (other characters of shipped files are replaced by '?' for both sides)",
+                       "float(token) is data: the implementation's float() on every token of the text is passed to model and spec",
+                       "fluent magnitudes below 1e4; states define every fluent; inconsistent effect sets are skipped by the spec's own test"]
+    return rep.finish()
